@@ -64,6 +64,9 @@ def run_property(pid, tier, plan, oracle, level="model_checking", rule="", assum
         return out
     try:
         n = len(plan)
+        # cheap scenarios first: what they leave of their share of the budget goes to the expensive ones (the budget is only a
+        # safety net -- plans are sized to finish -- but under machine load the deepest scenarios should be the ones with slack)
+        plan = sorted(plan, key=lambda sb: sb[1])
         for k, (scn, bound) in enumerate(plan):
             left = None
             if budget_s:
